@@ -227,8 +227,8 @@ theorem finalMask_step (M : List Cell) (hno : ((olds M).map (·.mkey)).Nodup)
     (hjS : j ∉ S) (hS : ∀ j' ∈ S, j' ∈ addIdx M) (d : Nat) (hd : d ∈ delIdx M)
     (hm : (M.getD d default).line.mkey = (M.getD j default).line.mkey) :
     finalMask M S = ((finalMask M (j :: S)).set d false).set j true := by
-  obtain ⟨hjl, hjn⟩ := mem_addIdx.mp hj
-  obtain ⟨hdl, hdo⟩ := mem_delIdx.mp hd
+  obtain ⟨hjl, hjn⟩ := mem_addIdxI.mp hj
+  obtain ⟨hdl, hdo⟩ := mem_delIdxI.mp hd
   simp only [Cell.newOnly, Cell.oldOnly, Bool.and_eq_true, Bool.not_eq_true'] at hjn hdo
   apply List.ext_getElem
   · simp [finalMask]
@@ -252,7 +252,7 @@ theorem finalMask_step (M : List Cell) (hno : ((olds M).map (·.mkey)).Nodup)
         rw [List.any_eq_false]
         intro j' hj' hcon
         simp only [beq_iff_eq] at hcon
-        obtain ⟨hjl', hjn'⟩ := mem_addIdx.mp (hS j' hj')
+        obtain ⟨hjl', hjn'⟩ := mem_addIdxI.mp (hS j' hj')
         simp only [Cell.newOnly, Bool.and_eq_true] at hjn'
         have := new_mkey_inj M hnn hjl' hjl hjn'.1 hjn.1 (by rw [hcon, hm])
         subst this
@@ -287,8 +287,8 @@ theorem finalMask_blockEq (E : Line → Line → Prop)
     have hj : j ∈ addIdx M := hS j List.mem_cons_self
     have hS' : ∀ j' ∈ S, j' ∈ addIdx M := fun j' h => hS j' (List.mem_cons_of_mem _ h)
     obtain ⟨d, hd, hm, hline, hsw⟩ := hok j List.mem_cons_self
-    obtain ⟨hjl, hjn⟩ := mem_addIdx.mp hj
-    obtain ⟨hdl, hdo⟩ := mem_delIdx.mp hd
+    obtain ⟨hjl, hjn⟩ := mem_addIdxI.mp hj
+    obtain ⟨hdl, hdo⟩ := mem_delIdxI.mp hd
     simp only [Cell.newOnly, Cell.oldOnly, Bool.and_eq_true, Bool.not_eq_true'] at hjn hdo
     have hok' : SupprOK E M S := by
       intro j' hj'
